@@ -11,7 +11,9 @@ RULE = ("create_random_shuffles: k = 1..4 (quick) / 1..6 (thorough) x seeds {0, 
         "permutations, two calls with the same seed agree, the doc-string table for (k=2, seed=2021) when it is the documented one; digit map: all "
         "24 permutation rows x all 15 non-empty live-arc patterns on the order-1 graph, through the REAL decode/encode: digit -> arc is a "
         "bijection onto the live arcs, decode inverts encode, and a string is accepted with the table iff it is accepted without; "
-        "non-trivial = pattern has >= 2 live arcs")
+        "non-trivial = pattern has >= 2 live arcs; shared table: ONE table object used by encode / decode (both modes) on two graphs with "
+        "different live-arc patterns in turn (all ordered pairs of the 11 patterns with >= 2 live arcs x 24 rows): the table is bit-for-bit "
+        "unchanged after every call and every call still selects the documented live arc")
 EXHAUSTIVE = {"quick": True, "thorough": True}
 CHUNK = 8
 
@@ -23,6 +25,12 @@ def cases(tier, rng):
     for perm in itertools.permutations(range(4)):
         for pat in range(1, 16):
             yield {"kind": "digitmap", "perm": list(perm), "pattern": pat, "nt": bin(pat).count("1") >= 2}
+    multi = [pat for pat in range(1, 16) if bin(pat).count("1") >= 2]
+    for perm in itertools.permutations(range(4)):
+        for p1 in multi:
+            for p2 in multi:
+                if p1 != p2:
+                    yield {"kind": "shared", "perm": list(perm), "first": p1, "second": p2, "nt": True}
 
 
 def check(case):
@@ -40,6 +48,37 @@ def check(case):
             fails.append(("table:permutations", f"create_random_shuffles({k}, {seed}): not one permutation row per vertex"))
         if t.tolist() != b[1].tolist():
             fails.append(("table:reproducible", f"create_random_shuffles({k}, {seed}) differs between two calls"))
+        return fails
+    if case["kind"] == "shared":
+        perm = case["perm"]
+        table = numpy.array([perm] * 4, dtype=int)
+        pristine = table.tolist()
+        for pat in (case["first"], case["second"]):
+            lv = [j for j in range(4) if (pat >> j) & 1]
+            acc = numpy.array([[j if j in lv else -1 for j in range(4)] for _ in range(4)], dtype=int)
+            deg, v = len(lv), lv[0]
+            tag = f"row={perm} patterns={case['first']:#x},{case['second']:#x} live={lv}"
+            for fast in ((False, True) if deg in (2, 4) else (False,)):
+                for digit in range(deg):
+                    if fast:
+                        w = 1 if deg == 2 else 2
+                        bits = S.render(digit, w, 2) + S.render(digit, w, 2)
+                    else:
+                        bits = S.render(digit + deg, 4, 2)
+                    e = outcome(encode, numpy.array(bits), acc, v, shuffles=table, is_faster=fast)
+                    if table.tolist() != pristine:
+                        fails.append(("shared:table-modified", f"{tag}: encode(fast={fast}) changed the caller's table to {table.tolist()[v]}"))
+                        return fails
+                    want = S.NUC[S.arc_of_digit(acc, numpy.array(pristine), v, digit)]
+                    if e[0] != "ok" or len(e[1]) < 1 or e[1][0] != want or any(S.NUC.index(c) not in lv for c in e[1]):
+                        fails.append(("shared:encode", f"{tag}: digit {digit} fast={fast} encodes to {e!r}, documented first arc {want!r} / not a walk"))
+                        continue
+                    d = outcome(decode, e[1], len(bits), acc, v, shuffles=table, is_faster=fast)
+                    if table.tolist() != pristine:
+                        fails.append(("shared:table-modified", f"{tag}: decode(fast={fast}) changed the caller's table"))
+                        return fails
+                    if d[0] != "ok" or [int(x) for x in d[1]] != bits:
+                        fails.append(("shared:inverse", f"{tag}: fast={fast} decode(encode({bits})) -> {d!r}"))
         return fails
     perm, pat = case["perm"], case["pattern"]
     lv = [j for j in range(4) if (pat >> j) & 1]
